@@ -69,6 +69,20 @@ fn shift_path(p: &PathSpec, dx: i32, dy: i32) -> PathSpec {
     }
 }
 
+/// For solid sources drawn by fill / fill_rect, one case in four describes the same device geometry in user units
+/// 2^14 or 2^7 times smaller under the matching transform (scale 2^-k, then a whole-number translation): the
+/// inverse transform then has entries of tens of thousands, which a solid colour has no use for.
+fn tiny_units(c: &Case) -> Option<(f32, f32, f32)> {
+    if !c.src.is_solid() || !matches!(c.route, Route::Fill { .. } | Route::Rect) {
+        return None;
+    }
+    match (c.w * 7 + c.h * 3 + c.mode as i32) % 8 {
+        0 => Some((16384.0, 2.0 + (c.w % 5) as f32, 2.0 + (c.h % 3) as f32)),
+        1 => Some((128.0, 300.0 + c.w as f32, 280.0 + c.h as f32)),
+        _ => None,
+    }
+}
+
 /// run the case on a surface enlarged by (ox, oy) with everything translated by (ox, oy); returns the w x h window
 fn render(c: &Case, ox: i32, oy: i32) -> Vec<u32> {
     let (bw, bh) = (c.w + ox, c.h + oy);
@@ -116,9 +130,31 @@ fn render(c: &Case, ox: i32, oy: i32) -> Vec<u32> {
             if !*aa {
                 o.antialias = AntialiasMode::None;
             }
-            c.src.with(|s| dt.fill(&shift_path(path, ox, oy).build(), s, &o));
+            let p = shift_path(path, ox, oy);
+            match tiny_units(c) {
+                Some((k, tx, ty)) => {
+                    // the same device geometry described in user units 2^k times smaller (exact: powers of two and
+                    // whole-number translations); a solid colour does not depend on the transform
+                    let q = PathSpec { ops: p.ops.iter().map(|op| match *op {
+                        POp::M(x, y) => POp::M((x - tx) * k, (y - ty) * k),
+                        POp::L(x, y) => POp::L((x - tx) * k, (y - ty) * k),
+                        other => other,
+                    }).collect(), evenodd: p.evenodd };
+                    dt.set_transform(&Transform::new(1.0 / k, 0.0, 0.0, 1.0 / k, tx, ty));
+                    c.src.with(|s| dt.fill(&q.build(), s, &o));
+                    dt.set_transform(&Transform::identity());
+                }
+                None => c.src.with(|s| dt.fill(&p.build(), s, &o)),
+            }
         }
-        Route::Rect => c.src.with(|s| dt.fill_rect(ox as f32, oy as f32, c.w as f32, c.h as f32, s, &opts)),
+        Route::Rect => match tiny_units(c) {
+            Some((k, tx, ty)) => {
+                dt.set_transform(&Transform::new(1.0 / k, 0.0, 0.0, 1.0 / k, tx, ty));
+                c.src.with(|s| dt.fill_rect((ox as f32 - tx) * k, (oy as f32 - ty) * k, c.w as f32 * k, c.h as f32 * k, s, &opts));
+                dt.set_transform(&Transform::identity());
+            }
+            None => c.src.with(|s| dt.fill_rect(ox as f32, oy as f32, c.w as f32, c.h as f32, s, &opts)),
+        },
         Route::Clear => {
             if let SrcSpec::Solid(col) = &c.src {
                 // clear() is not positioned by the current transform (C11): whatever transform is set, every pixel
@@ -333,6 +369,7 @@ pub fn check(c: &Case) -> CheckResult {
         Route::Rect => "route:fill_rect",
         Route::Clear => "route:clear",
     });
+    o.class_if(tiny_units(c).is_some(), "solid-drawn-in-tiny-user-units");
     o.class_if(matches!(c.route, Route::Clear) && (c.w * 3 + c.h * 5 + c.mode as i32) % 6 < 4, "clear-under-a-transform");
     o.class_if(matches!(c.route, Route::Clear) && (c.w * 3 + c.h * 5 + c.mode as i32) % 6 < 4 && c.layer.is_some() && c.layer_clip_popped && matches!(c.clip, ClipSpec::None), "clear-under-a-transform-in-unclipped-layer");
     o.class(match c.clip {
@@ -474,7 +511,7 @@ pub fn property(ctx: &Ctx) -> Property {
     let c = ctx.clone();
     Property {
         id: "C03",
-        rule: "part px: 1..8 x 1..8 surfaces (one in thirteen 257..300 x 1..2 or 1..2 x 257..300) where every pixel has its own premultiplied previous value; source solid/image/gradient under global alpha; coverage delivered by mask() bytes (each pixel its own byte), by AA or aliased fills of quarter-grid polygons (exact coverage from the 4x4 model), by fill_rect and clear (clear under a translation, scale, quarter turn or singular transform in two thirds of its cases: it is not positioned by the transform); clip none / rect / quarter-grid path / path then rect; 28 blend modes; in 30% of the cases the whole draw happens inside a layer pushed under an offset clip rectangle (layer origin != (0,0)). Oracle per pixel: exactly previous at weight 0, exactly blend(source, previous) at full weight, otherwise within 3/255 of the real-arithmetic coverage-weighted formula; source colour read from a Src render of the same source (solid sources checked against colour x alpha); same inputs translated by whole pixels must give bit-identical pixels. part sweep: exhaustive mode x coverage byte 0..255 x clip {none, full path, empty path} over a premultiplied boundary lattice of (source, previous) pairs. Non-trivial: case with >=1 partially weighted pixel, or a full-weight pixel under a mode other than SrcOver; distinct by hash of (size, source, alpha, mode, route, clip).",
+        rule: "part px: 1..8 x 1..8 surfaces (one in thirteen 257..300 x 1..2 or 1..2 x 257..300) where every pixel has its own premultiplied previous value; source solid/image/gradient under global alpha; coverage delivered by mask() bytes (each pixel its own byte), by AA or aliased fills of quarter-grid polygons (exact coverage from the 4x4 model), by fill_rect and clear (for solid sources one fill / fill_rect in four is described in user units 2^7 or 2^14 times smaller under the matching transform, exactly the same device geometry, so that the inverse transform has entries beyond 32768; clear under a translation, scale, quarter turn or singular transform in two thirds of its cases: it is not positioned by the transform); clip none / rect / quarter-grid path / path then rect; 28 blend modes; in 30% of the cases the whole draw happens inside a layer pushed under an offset clip rectangle (layer origin != (0,0)). Oracle per pixel: exactly previous at weight 0, exactly blend(source, previous) at full weight, otherwise within 3/255 of the real-arithmetic coverage-weighted formula; source colour read from a Src render of the same source (solid sources checked against colour x alpha); same inputs translated by whole pixels must give bit-identical pixels. part sweep: exhaustive mode x coverage byte 0..255 x clip {none, full path, empty path} over a premultiplied boundary lattice of (source, previous) pairs. Non-trivial: case with >=1 partially weighted pixel, or a full-weight pixel under a mode other than SrcOver; distinct by hash of (size, source, alpha, mode, route, clip).",
         assumptions: vec![
             "blend(source, previous) is sw_composite::blend::<Mode>::blend, the formula library the property names",
             "between weight 0 and 1 the rounding scheme is not pinned: +-3/255 per channel",
